@@ -256,6 +256,51 @@ def runtime_checks():
                 if torch.equal(a, b):
                     bad.append(dict(case='coefficient table of another dtype than the radii', condition=cname, dtype=str(dt), r=1.3,
                                     violated='between the radii the result does not depend on the network'))
+    # an inner radius of exactly 0 (the centre of a ball): the prescribed data is f(theta, phi) for every direction, as at any other radius
+    from neurodiffeq.conditions import InfDirichletBVPSpherical
+    fa = lambda a, b: 1.0 + torch.sin(a) * torch.cos(b)
+    ga = lambda a, b: 0.5 * torch.cos(a)
+    net = FCNN(3, 1, hidden_units=(6,))
+    for cname, c in (('DirichletBVPSpherical(r_0=0, r_1=2)', DirichletBVPSpherical(0.0, fa, 2.0, ga)), ('DirichletBVPSpherical(r_0=0)', DirichletBVPSpherical(0.0, fa)),
+                     ('InfDirichletBVPSpherical(r_0=0)', InfDirichletBVPSpherical(0.0, fa, ga, order=1)), ('DirichletBVPSpherical(r_0=0.0 as int 0)', DirichletBVPSpherical(0, fa, 2, ga))):
+        got = c.enforce(net, full(0.0), th, ph).detach()
+        if not torch.allclose(got, fa(th, ph), rtol=0, atol=1e-6):
+            bad.append(dict(case='inner radius exactly 0', condition=cname, violated='u(r_0, theta, phi) is not f(theta, phi)', got=got.reshape(-1).tolist(),
+                            want=fa(th, ph).reshape(-1).tolist()))
+    # a deep copy (what get_solution(copy=True) and checkpoints make) is a condition of its own: editing its radii moves ITS boundaries
+    from copy import deepcopy
+    R0, R1 = torch.tensor([1.0, -2.0, 0.5]), torch.tensor([0.25, 3.0, -1.0])
+    netK = FCNN(1, 3, hidden_units=(6,))
+    for cname, c, val0, val1, args in (('DirichletBVPSpherical', DirichletBVPSpherical(0.5, fa, 2.0, ga), fa(th, ph), ga(th, ph), (th, ph)),
+                                       ('DirichletBVPSphericalBasis', DirichletBVPSphericalBasis(0.5, R0, 2.0, R1), R0.expand(n, 3), R1.expand(n, 3), ())):
+        nn_ = net if args else netK
+        c.enforce(nn_, full(0.5), *args)
+        cc = deepcopy(c)
+        cc.r_0, cc.r_1 = 0.75, 3.5
+        for who, obj, r0_, r1_ in (('the copy (radii edited to 0.75, 3.5)', cc, 0.75, 3.5), ('the original (radii 0.5, 2.0)', c, 0.5, 2.0)):
+            g0 = obj.enforce(nn_, full(r0_), *args).detach()
+            g1 = obj.enforce(nn_, full(r1_), *args).detach()
+            if not torch.allclose(g0, val0, rtol=0, atol=1e-6) or not torch.allclose(g1, val1, rtol=0, atol=1e-6):
+                bad.append(dict(case='deep copy of a two-sided condition whose radii are then edited', condition=cname, object=who,
+                                violated='the boundary values are not reproduced at this object\'s own radii',
+                                inner_error=float((g0 - val0).abs().max()), outer_error=float((g1 - val1).abs().max())))
+    # boundary callables that hand back one reused work buffer (each call overwrites what the previous call returned)
+    buf = torch.zeros(n, 1)
+
+    def fb(a, b):
+        buf.copy_(1.0 + torch.sin(a) * torch.cos(b))
+        return buf
+
+    def gb(a, b):
+        buf.copy_(0.5 * torch.cos(a))
+        return buf
+    for cname, c, pts in (('DirichletBVPSpherical', DirichletBVPSpherical(0.5, fb, 2.0, gb), ((0.5, fa), (2.0, ga))),
+                          ('InfDirichletBVPSpherical', InfDirichletBVPSpherical(0.5, fb, gb, order=1), ((0.5, fa),))):
+        for r_, ref in pts:
+            got = c.enforce(net, full(r_), th, ph).detach().clone()
+            if not torch.allclose(got, ref(th, ph), rtol=0, atol=1e-6):
+                bad.append(dict(case='boundary functions that return one shared, reused buffer', condition=cname, r=r_, violated='boundary value not reproduced',
+                                got=got.reshape(-1).tolist(), want=ref(th, ph).reshape(-1).tolist()))
     return bad
 
 
